@@ -1,5 +1,6 @@
 import SqlObjVerif.Lemmas.Inherit
 import SqlObjVerif.Lemmas.InheritXCreateChain
+import SqlObjVerif.Lemmas.InheritXGetChain
 /-!
 # C15 — inheritance hierarchies stay consistent across their tables
 
@@ -592,6 +593,39 @@ theorem C15_translated_create_cleanup_eq_model (X : Ctx) (h : X.T.WF) (hb : ∀ 
   rw [createN_eq h hb hvals k w (c + 1) c (by omega) none _ (Or.inl rfl) hfresh]
   simp [createCall, h1]
 
+
+/-- `get`, one level: `SQLObject.get` (NotFound without a row), then the `childName` dispatch to the class registered
+    under that name in `childClasses` — fetched on the SAME connection, without a SELECT (`selectResults=(None,)`) exactly
+    when it has no column at all — or KeyError; without a tag the `_parent` chain is fetched on that connection -/
+theorem C15_translated_get_level (X : Ctx) (h : X.T.WF) (C : Calls) (w : XW) (k e i : Nat)
+    (hcold : ∀ a, a ∈ X.T.anc e → w.par k a i = .none)
+    (hgp : ∀ w' p, C.getParent w' k p i = getParentX X w' k p i)
+    (htag : ∀ r, w.cur k e i = some r → X.T.inh e = false → r.child = none) :
+    getX X C w e i (.conn k) .none .none (.bool false) =
+      match w.cur k e i with
+      | none => .exc w ⟨.notFound, 0⟩
+      | some r =>
+        match r.child with
+        | none => parentsFetch X w k e i
+        | some d =>
+          if X.T.parent d = some e then C.getChild w k d i (shuntArg (Extracted.shuntColless && X.T.colless d))
+          else .exc w ⟨.keyError, 0⟩ :=
+  getX_level h C w k e i (.conn k) rfl hcold (fun w' p => by rw [hgp, getParentX_eq]) htag
+
+/-- `get` entered through ANY class `e`, the translated method calling itself down the `childName` chain and the
+    translated `get(childUpdate=True)` up the `_parent` chain, on connection `k`: the hand model's `get` on that
+    connection's tables (most-derived class, NotFound, KeyError); no table changes.  `hcold`: the instances are built
+    by `_init` (instance cache cold); `htag`: a table without `childName` column holds no tag. -/
+theorem C15_translated_get_eq_model (X : Ctx) (h : X.T.WF) (w : XW) (k e i : Nat)
+    (hcold : ∀ a, w.par k a i = .none)
+    (htag : ∀ c r, w.cur k c i = some r → X.T.inh c = false → r.child = none) :
+    ∃ w', w'.cur = w.cur ∧ getC X w e i (.conn k) =
+      match get X.T (w.cur k) e i with
+      | .ok m => .ret w' (.inst k m i)
+      | .notFound => .exc w' ⟨.notFound, 0⟩
+      | .keyError => .exc w' ⟨.keyError, 0⟩ :=
+  getC_eq h w k e i hcold htag
+
 /-! ### Non-vacuity: the translated programs run (no `stuck`) on the three-level hierarchy `T0`, connection 1
 holding `db0`, connection 0 empty -/
 
@@ -611,4 +645,10 @@ example : (match createC X0 w1 1 3 .none (kwOf X0 (T0.anc 3) none) with
 example : (match createC X0 w1 1 4 .none (kwOf X0 (T0.anc 4) none) with
     | .exc w e => (e.cls, [0, 1, 4].map (fun c => (w.cur 1).has c 9))
     | _ => (.exception, [])) = (.baseOnly, [false, false, false]) := by decide +kernel
+/-- `K0.get(1, connection=1)` is the K3, `K0.get(2, connection=1)` the column-less K5 (no SELECT on its table),
+    `K0.get(1)` on the (empty) default connection NotFound -/
+example : (match getC X0 w1 0 1 (.conn 1), getC X0 w1 0 2 (.conn 1), getC X0 w1 0 1 .none with
+    | .ret wa a, .ret _ b, .exc _ e => (a, b, e.cls, wa.par 1 3 1, wa.par 1 1 1, wa.par 1 0 1)
+    | _, _, _ => (.none, .none, .exception, .none, .none, .none)) =
+    (.inst 1 3 1, .inst 1 5 2, .notFound, .inst 1 1 1, .inst 1 0 1, .none) := by decide +kernel
 end SqlObjVerif.Inherit
